@@ -122,7 +122,9 @@ func startRaceWorkers(spec *PropSpec, racebin, prop, tier string, seed uint64, b
 }
 
 // raceClass extracts, from a race report, the innermost raft-wal function of
-// each of the two access stacks. ok=false when either stack has none.
+// each of the two access stacks ("?" where the detector kept only the frames of
+// a sync/atomic primitive). ok=false when neither stack shows raft-wal or when
+// one of them is an access on behalf of the harness.
 func raceClass(report string) (string, bool) {
 	var stacks [][]string
 	var cur []string
@@ -150,18 +152,35 @@ func raceClass(report string) (string, bool) {
 		return "", false
 	}
 	var fns []string
+	known := 0
 	for _, st := range stacks[:2] {
 		fn := ""
+		foreign := false
 		for _, f := range st {
 			if strings.HasPrefix(f, "github.com/hashicorp/raft-wal") && !strings.Contains(f, "/verifhook.") {
 				fn = strings.TrimSuffix(strings.TrimPrefix(f, "github.com/hashicorp/raft-wal"), "()")
 				break
 			}
+			if !strings.HasPrefix(f, "sync/atomic.") && !strings.HasPrefix(f, "sync.") && !strings.HasPrefix(f, "internal/") {
+				foreign = true
+			}
 		}
-		if fn == "" {
+		switch {
+		case fn != "":
+			known++
+		case foreign:
+			// the innermost frames belong to neither raft-wal nor a synchronisation
+			// primitive it called: an access made on behalf of the harness
 			return "", false
+		default:
+			// the detector's history of a previous access keeps few frames: an
+			// atomic or sync primitive whose caller was dropped
+			fn = "?"
 		}
 		fns = append(fns, fn)
+	}
+	if known == 0 {
+		return "", false
 	}
 	sort.Strings(fns)
 	return "data-race:" + fns[0] + "|" + fns[1], true
